@@ -107,6 +107,33 @@ class AsyncCopyMachine(StateMachine):
         return (self.tag, target.id)
 
 
+class RootedFlow(StateMachine):
+    a = State(initial=True)
+    b = State()
+    c = State()
+
+    go = a.to(b, cond="ok") | a.to(c) | b.to(c) | c.to(a)
+
+    def ok(self):
+        return ENV["ok"]
+
+    def on_enter_a(self):
+        self.model.entered.append("a")  # uses an attribute of the model: the model must be complete when this runs
+
+    def on_enter_state(self, state):
+        self.model.visits.append(state.id)
+
+
+class RootedDoc:
+    """The usual arrangement: the domain object owns its machine and is the machine's model."""
+
+    def __init__(self):
+        self.state = None
+        self.entered = []
+        self.visits = []
+        self.sm = RootedFlow(self)
+
+
 VALUE_OF = {"a": "a", "b": 0, "c": ""}
 
 
@@ -128,6 +155,8 @@ def tasks(tier):
         for activated in (False, True):
             out.append({"kind": "async", "mech": mech, "activated": activated, "suffix": 1 if quick else 2, "start": None})
         out.append({"kind": "async", "mech": mech, "activated": False, "suffix": 1, "start": "b"})
+        for prefix in range(3):
+            out.append({"kind": "model-rooted", "mech": mech, "prefix": prefix, "suffix": 1 if quick else 2})
     return out
 
 
@@ -139,11 +168,11 @@ BOUNDS = {
     "quick": "3-state machine with guarded/fallback candidates, a custom constructor argument and attributes, a falsy (`__len__` == 0) model with callbacks, a custom state field, underscore-prefixed and name-mangled user attributes, events bound onto the model with bind_events_to (and driven through the model on either machine), value-based equality and a plain attribute used as a guard (set differently on original and clone after the copy), "
     "one constructor listener and one listener attached later with add_listener or the deprecated add_observer (providing a guard and an enter callback); allow_event_without_transition assigned after construction in two of the option sets; options {rtc, allow_event_without_transition, "
     "state_field, start_value} in 4 combinations; copy by copy.deepcopy and by pickle after a history of 0..2 events; then 2 further events distributed over "
-    "original and clone in any interleaving, with symbolic guard values; an async-callback machine copied before and after its initial activation (also with a start_value), then driven.",
+    "original and clone in any interleaving, with symbolic guard values; a model that owns its machine (doc.sm = Flow(doc)) copied as the root of the graph after 0..2 events; an async-callback machine copied before and after its initial activation (also with a start_value), then driven.",
     "thorough": "3 further events after the copy; 2 on the async machine.",
 }
 OUTSIDE = "machines whose model, listeners or attributes cannot be pickled; copy.copy (shallow); copies taken from inside a callback"
-OBLIGATIONS = ["model-attribute-diverged", "clone-diverged", "original-diverged", "listener-copy-independent", "options-preserved", "copied-before-activation", "pickle", "deepcopy"]
+OBLIGATIONS = ["model-rooted-copy", "model-attribute-diverged", "clone-diverged", "original-diverged", "listener-copy-independent", "options-preserved", "copied-before-activation", "pickle", "deepcopy"]
 ASSUMPTIONS = [
     "guard values live outside the copied object graph (module-level ENV), so nothing symbolic is serialised; the copy itself runs under the tracer",
     "equivalence is judged against the transition table of the machine from the copy point, separately for original and clone",
@@ -156,7 +185,50 @@ def do_copy(mech, sm):
     return pickle.loads(pickle.dumps(sm))
 
 
+def run_model_rooted(ctx, params):
+    """The object that is copied is the MODEL, which owns its machine (doc.sm = Flow(doc)): the machine is copied as
+    part of that graph and must come out in the same state, bound to the copied model, without running callbacks."""
+    mech = params["mech"]
+    with ctx.notracing():
+        doc = RootedDoc()
+    cur = "a"
+    for k in range(params["prefix"]):
+        ENV["ok"] = ctx.sym_bool(f"ok.p{k}")
+        doc.sm.send("go")
+        cur = step(cur, "go", True if ENV["ok"] else False)
+    ENV["ok"] = True
+    entered, visits = list(doc.entered), list(doc.visits)
+    tag = f"model-rooted:{mech}"
+    try:
+        clone = do_copy(mech, doc)
+    except Exception as e:  # noqa: BLE001
+        if type(e).__name__ == "NotDeterministic":
+            raise
+        raise Mismatch(f"copy-of-model-owning-its-machine-failed:{mech}", f"after {params['prefix']} event(s), state {cur}: {type(e).__name__}: {e}")
+    ctx.cover(mech)
+    if clone is doc or clone.sm is doc.sm or clone.sm.model is not clone:
+        raise Mismatch(f"clone-shares-model:{tag}", "the copied machine is not bound to the copied model")
+    if clone.sm.current_state.id != cur or clone.state != doc.state or doc.sm.current_state.id != cur:
+        raise Mismatch(f"clone-in-wrong-state:{tag}", f"expected {cur}: original {doc.sm.current_state.id}, clone {clone.sm.current_state.id} (stored {clone.state!r})")
+    if clone.entered != entered or clone.visits != visits or doc.entered != entered or doc.visits != visits:
+        raise Mismatch(f"callbacks-ran-during-copy:{tag}", f"enter log before the copy {visits}; original now {doc.visits}, clone {clone.visits}")
+    # both go on independently
+    for k in range(params["suffix"]):
+        who = ctx.choose(2, f"who{k}")
+        d = clone if who else doc
+        ENV["ok"] = ctx.sym_bool(f"ok.s{k}")
+        before_other = (doc if who else clone).sm.current_state.id
+        here = d.sm.current_state.id
+        d.sm.send("go")
+        want = step(here, "go", True if ENV["ok"] else False)
+        if d.sm.current_state.id != want or (doc if who else clone).sm.current_state.id != before_other:
+            raise Mismatch(f"clone-diverged-wrongly:{tag}", f"{'clone' if who else 'original'} from {here} on go: expected {want}, got {d.sm.current_state.id}; the other one moved from {before_other} to {(doc if who else clone).sm.current_state.id}")
+    ctx.cover("model-rooted-copy")
+
+
 def run(ctx, params):
+    if params["kind"] == "model-rooted":
+        return run_model_rooted(ctx, params)
     if params["kind"] == "async":
         return run_async(ctx, params)
     mech = params["mech"]
